@@ -61,3 +61,14 @@ def run_c13(prop="C13", tier="quick"):
     """C13 view (format rule "at most prec+1 limbs"): R-EXTENT findings - a write into an mpf destination beyond the prec+1 limbs its block
     holds, or a size stored that exceeds them - inside the files the property is anchored in."""
     return scope_to_anchors(run(prop, tier, rules=("R-EXTENT",)), prop)
+
+
+def run_c14(prop="C14", tier="quick"):
+    """C14 view (--enable-assert must not change what a call does): the R-OVERLAP clause that exists only in assert builds - an MPN_COPY whose
+    operands may overlap with the destination below the source is a correct copy that aborts on MPN_COPY's own MPN_SAME_OR_SEPARATE_P
+    assertion."""
+    r = run(prop, tier, rules=("R-OVERLAP",))
+    keep = [f for f in r["findings"] if f.signature.startswith("copy-asserts-separate")]
+    r["notes"].append("assert-build clause only: %d other R-OVERLAP finding(s) belong to C05" % (len(r["findings"]) - len(keep)))
+    r["findings"] = keep
+    return r
